@@ -222,6 +222,23 @@ theorem drop_visits_all_run (n : Nat) (ops : List Op) (halive : ((Arena.new n).r
   refine ⟨hw, by rw [hw]; exact hinv.nodup, fun i => ?_⟩
   rw [hw]; exact hinv.memAll i
 
+/-- The coupling takes the pointer statement `sweep_prev = None` of the end-of-list `sweep_one`
+    (`'e'`) together with the `Sweep → Sleep` switch (`'Z'`).  That hides nothing: in every history
+    whose collection calls are self-driven (`Context::do_collection` as written, any method, debt,
+    pacing, fault) no state at an operation boundary has `'e'` as its newest step — the loop never
+    returns between the two, so no `link`, callback or other call can run there.  (An oracle that cut
+    a logged call between `'e'` and `'Z'` could; the harness logs whole calls.)  Also note:
+    `PList.sweepOne` keeps (`sweep_prev := Some`) in every non-white arm, `Context::sweep_one`'s
+    `Gray` arm does not touch `sweep_prev` — unreachable under the invariant (`sweepOne_refines`
+    excludes gray under the cursor), so both agree on every reachable state. -/
+theorem sweep_end_and_switch_adjacent_run (n : Nat) (ops : List Op)
+    (hself : ∀ op, op ∈ ops → ∀ m k f o, op = .collect m k f o → o = none) :
+    ((Arena.new n).run ops).ctx.steps.head? ≠ some 'e' :=
+  selfdriven_run_never_stops_at_e n ops hself
+
+example : ((Arena.new 2).run [.enter .mutateRoot, .alloc true [none], .leave,
+    .collect .finishCycle .drop none none]).ctx.steps = ['Z', 'e', 'x', 'S', 'b', 'r', 'W'] := by decide
+
 /-! ### Non-vacuity: dropping mid-sweep with a shell, a kept object and a condemned one -/
 
 def demo : List Op := [
